@@ -72,12 +72,23 @@ const (
 	lfEqBig         // f:9007199254740993
 	lfNonASCII      // f:"é" style two-byte UTF-8 text
 	lfRangeWhole    // f:[2.0 TO 1e6]  (float bounds with whole values)
+	lfQuotedWild    // f:"b*"  (quoted, so a string; the JSON decoder infers a pattern from the text)
+	lfQuotedRegexp  // f:"/bc/"
+	lfFloatWhole    // f:5.0
+	lfWildEsc       // f:b\ c*  (an escaped non-wildcard character inside a pattern)
+	lfWildEscWild   // f:b\**  (an escaped wildcard character inside a pattern is a literal)
+	lfWildUnderscore // f:b_*  (an underscore in a pattern is a literal)
+	lfWildPunct     // f:b.c* / f:b-c*
+	lfListMixed     // f:(1 OR 2.5)
+	lfEqHuge        // f:12345678901234567890  (an integer beyond int64: Parse keeps it as a float64)
+	lfRangeWildLo   // f:[b* TO c]  (a string bound that contains a wildcard character stays a string)
+	lfRangeWildHi   // f:[b TO c?]
 	lfAllCount
 )
 
 var leafNames = []string{"bare", "eq-str", "eq-int", "bare-int", "gt", "ge", "lt", "le", "range-incl", "range-excl", "range-lo", "range-hi",
 	"range-str", "list", "wild", "regexp", "quoted", "float", "bare-wild", "", "range-excl-str", "range-str-lo", "range-str-hi", "range-all",
-	"range-excl-lo", "range-excl-hi", "range-float", "range-float-excl", "list-int", "wild-mid", "regexp-short", "special-float", "range-str-comma", "eq-special", "empty-quoted", "bare-quoted-wild", "wild-field", "quoted-digits", "range-mixed", "quoted-nasty", "regexp-nasty", "range-big", "eq-big", "non-ascii", "range-whole-float"}
+	"range-excl-lo", "range-excl-hi", "range-float", "range-float-excl", "list-int", "wild-mid", "regexp-short", "special-float", "range-str-comma", "eq-special", "empty-quoted", "bare-quoted-wild", "wild-field", "quoted-digits", "range-mixed", "quoted-nasty", "regexp-nasty", "range-big", "eq-big", "non-ascii", "range-whole-float", "quoted-wild", "quoted-regexp", "float-whole", "wild-esc", "wild-esc-wild", "wild-underscore", "wild-punct", "list-mixed", "eq-huge", "range-wild-lo", "range-wild-hi"}
 
 // concreteFields makes field names the fixed sequence p, q, r, ... (one per leaf) instead of
 // symbolic bytes; used where rows have to be looked up by name.
@@ -194,6 +205,23 @@ func genLeaf(forms []int) *node {
 	case lfRegexpShort:
 		lf.field = holeField()
 		lf.s1 = string([]byte{'/', holeByte("re", strRest+"."), '/'})
+	case lfQuotedWild:
+		lf.field = holeField()
+		lf.s1 = string([]byte{holeByte("str", strFirst), holeByte("wc", "*?")})
+	case lfQuotedRegexp:
+		lf.field = holeField()
+		lf.s1 = string([]byte{'/', holeByte("str", strRest), holeByte("str", strRest), '/'})
+	case lfFloatWhole:
+		lf.field = holeField()
+		lf.d1 = string([]byte{holeByte("digit", "0123456789"), '.', '0'})
+	case lfRangeWildLo:
+		lf.field = holeField()
+		lf.s1 = string([]byte{holeByte("str", strFirst), holeByte("wc", "*?")})
+		lf.s2 = holeStr()
+	case lfRangeWildHi:
+		lf.field = holeField()
+		lf.s1 = holeStr()
+		lf.s2 = string([]byte{holeByte("str", strFirst), holeByte("wc", "*?")})
 	case lfRangeComma:
 		lf.field = holeField()
 		lf.s1 = string([]byte{holeByte("str", strFirst), ',', holeByte("str", strRest)})
@@ -223,6 +251,24 @@ func genLeaf(forms []int) *node {
 	case lfRangeBig, lfEqBig:
 		lf.field = holeField()
 		lf.d1, lf.i1 = "9007199254740993", 9007199254740993
+	case lfWildEsc:
+		lf.field = holeField()
+		lf.s1 = string([]byte{holeByte("str", strFirst), '\\', holeByte("escd", " :(\"+-"), holeByte("wc", "*?")})
+	case lfWildEscWild:
+		lf.field = holeField()
+		lf.s1 = string([]byte{holeByte("str", strFirst), '\\', holeByte("wc", "*?"), holeByte("wc", "*?")})
+	case lfWildUnderscore:
+		lf.field = holeField()
+		lf.s1 = string([]byte{holeByte("str", strFirst), '_', holeByte("wc", "*?")})
+	case lfWildPunct:
+		lf.field = holeField()
+		lf.s1 = string([]byte{holeByte("str", strFirst), holeByte("punct", ".-"), holeByte("str", strRest), holeByte("wc", "*?")})
+	case lfListMixed:
+		lf.field = holeField()
+		lf.d1, lf.i1 = holeInt()
+	case lfEqHuge:
+		lf.field = holeField()
+		lf.d1 = []string{"12345678901234567890", "9223372036854775808"}[rtChoose("huge", 2)]
 	case lfNonASCII:
 		lf.field = holeField()
 		b0 := holeByte("u0", "\xc3\xc4\xd0\xd7")
@@ -280,6 +326,8 @@ type printOpts struct {
 	lowerKw   bool           // and/or/not/to in lower case
 	valuePar  bool           // field:(value) instead of field:value
 	prefixSp  bool           // white space between a prefix operator and its operand (- a, + a)
+	spaceStr  string         // when set, the white space written wherever one space stands
+	numPar    bool           // redundant parentheses around a fuzzy distance / boost power: a~(2)
 }
 
 func kw(s string, o *printOpts) string {
@@ -298,7 +346,18 @@ func kw(s string, o *printOpts) string {
 	return s
 }
 
+func numText(num int, o *printOpts) string {
+	d := string([]byte{byte('0' + num)})
+	if o != nil && o.numPar {
+		return "(" + d + ")"
+	}
+	return d
+}
+
 func sp(o *printOpts) string {
+	if o != nil && o.spaceStr != "" {
+		return o.spaceStr
+	}
 	if o != nil && o.wideSpace {
 		return " \t"
 	}
@@ -337,10 +396,14 @@ func printLeaf(lf *leaf, o *printOpts) string {
 		return lf.field + ":[*" + sp(o) + kw("TO", o) + sp(o) + lf.d1 + "]"
 	case lfRangeHi:
 		return lf.field + ":[" + lf.d1 + sp(o) + kw("TO", o) + sp(o) + "*]"
-	case lfRangeStr:
+	case lfRangeStr, lfRangeWildLo, lfRangeWildHi:
 		return lf.field + ":[" + lf.s1 + sp(o) + kw("TO", o) + sp(o) + lf.s2 + "]"
 	case lfList:
 		return lf.field + ":(" + lf.s1 + sp(o) + kw("OR", o) + sp(o) + lf.s2 + ")"
+	case lfListMixed:
+		return lf.field + ":(" + lf.d1 + sp(o) + kw("OR", o) + sp(o) + "2.5)"
+	case lfWildEsc, lfWildEscWild, lfWildUnderscore, lfWildPunct:
+		return lf.field + ":" + lf.s1
 	case lfWild, lfRegexp:
 		if o != nil && o.valuePar {
 			return lf.field + ":(" + lf.s1 + ")"
@@ -387,13 +450,15 @@ func printLeaf(lf *leaf, o *printOpts) string {
 		return lf.field + ":" + lf.s1
 	case lfQuotedNasty:
 		return lf.field + ":\"" + lf.s1 + "\""
-	case lfQuotedDigits:
+	case lfQuotedDigits, lfQuotedWild, lfQuotedRegexp:
 		return lf.field + ":\"" + lf.s1 + "\""
+	case lfFloatWhole:
+		return lf.field + ":" + lf.d1
 	case lfRangeMixed:
 		return lf.field + ":[" + lf.d1 + sp(o) + kw("TO", o) + sp(o) + "2.5]"
 	case lfRangeBig:
 		return lf.field + ":[" + lf.d1 + sp(o) + kw("TO", o) + sp(o) + "*]"
-	case lfEqBig:
+	case lfEqBig, lfEqHuge:
 		return lf.field + ":" + lf.d1
 	}
 	return "?"
@@ -455,12 +520,12 @@ func printNode(n *node, min int, o *printOpts) string {
 	case nBoost:
 		s = printNode(n.l, lv, o) + "^"
 		if n.hasNum {
-			s += string([]byte{byte('0' + n.num)})
+			s += numText(n.num, o)
 		}
 	case nFuzzy:
 		s = printNode(n.l, lv, o) + "~"
 		if n.hasNum {
-			s += string([]byte{byte('0' + n.num)})
+			s += numText(n.num, o)
 		}
 	}
 	if lv < min || (o != nil && o.extraPar[n]) {
@@ -541,6 +606,16 @@ func matchLeaf(e *expr.Expression, lf *leaf, df string) bool {
 		return litString(e, lf.s1)
 	case lfEqInt, lfEqBig:
 		return e.Op == expr.Equals && rtAnd(litColumn(e.Left, lf.field), litInt(e.Right, lf.i1))
+	case lfEqHuge:
+		if e.Op != expr.Equals || !litColumn(e.Left, lf.field) {
+			return false
+		}
+		rh := asExpr(e.Right)
+		if rh == nil || rh.Op != expr.Literal {
+			return false
+		}
+		fh, okh := rh.Left.(float64)
+		return okh && ((lf.d1 == "12345678901234567890" && fh == 12345678901234567890.0) || (lf.d1 == "9223372036854775808" && fh == 9223372036854775808.0))
 	case lfFloat:
 		if e.Op != expr.Equals || !litColumn(e.Left, lf.field) {
 			return false
